@@ -6,6 +6,7 @@ CONSTANTS
   MaxSets = 3
   PointerReceiver = TRUE
   CacheDerived = TRUE
+  GlobalLock = FALSE
 SPECIFICATION Spec
 INVARIANTS ResultIsFunctionOfFields
 PROPERTIES CallsLeaveFieldsUnchanged
